@@ -452,6 +452,40 @@ fn validate_ns(ctx: &mut Ctx, w: &World, kind: Kind, der_bytes: &[u8], issuer: O
     })
 }
 
+/// The same question through the other public routes to it: inspection and
+/// verification as two separate calls, and a certificate that went through
+/// its serde form first. Returns (route, accepted) pairs.
+fn alt_routes(ctx: &mut Ctx, w: &World, kind: Kind, der_bytes: &[u8], issuer: Option<&ResourceCert>, strict: bool, now: i64) -> Vec<(&'static str, bool)> {
+    let tal = w.tal.clone();
+    let res = ctx.no_panic("validate-alt-routes", || json!({"cert": hex(der_bytes), "now": now, "strict": strict}), move || {
+        let mut out = Vec::new();
+        let Ok(cert) = Cert::decode(der_bytes) else { return out };
+        let t = time_at(now);
+        // two-step
+        let two = match kind {
+            Kind::Ta => cert.inspect_ta(strict).is_ok() && cert.clone().verify_ta_at(tal.clone(), strict, t).is_ok(),
+            Kind::Ca => cert.inspect_ca(strict).is_ok() && cert.clone().verify_ca_at(issuer.unwrap(), strict, t).is_ok(),
+            Kind::Ee => cert.inspect_ee(strict).is_ok() && cert.clone().verify_ee_at(issuer.unwrap(), strict, t).is_ok(),
+            Kind::Router => cert.inspect_router(strict).is_ok() && cert.verify_router_at(issuer.unwrap(), strict, t).is_ok(),
+        };
+        out.push(("inspect-then-verify", two));
+        // through serde
+        if let Ok(js) = serde_json::to_string(&cert) {
+            if let Ok(back) = serde_json::from_str::<Cert>(&js) {
+                let ok = match kind {
+                    Kind::Ta => back.validate_ta_at(tal, strict, t).is_ok(),
+                    Kind::Ca => back.validate_ca_at(issuer.unwrap(), strict, t).is_ok(),
+                    Kind::Ee => back.validate_ee_at(issuer.unwrap(), strict, t).is_ok(),
+                    Kind::Router => back.validate_router_at(issuer.unwrap(), strict, t).is_ok(),
+                };
+                out.push(("after-serde-roundtrip", ok));
+            }
+        }
+        out
+    });
+    res.unwrap_or_default()
+}
+
 fn node_ta_der(ta: &Spec, w: &World) -> Vec<u8> {
     build(w, ta)
 }
@@ -464,6 +498,18 @@ fn expect_reject(ctx: &mut Ctx, w: &World, variant: &str, kind: Kind, der_bytes:
     let out = validate(ctx, w, kind, der_bytes, issuer, strict, now);
     if let Some(Outcome::Rejected(e)) = &out {
         ctx.sample(&format!("tamper-{}", variant), || json!({"variant": variant, "kind": format!("{:?}", kind), "now": now, "observed": format!("rejected: {}", e)}));
+    }
+    if !variant.starts_with("bitflip") {
+        for (route, accepted) in alt_routes(ctx, w, kind, der_bytes, issuer, strict, now) {
+            ctx.eval();
+            if accepted {
+                ctx.violation(
+                    &format!("C01:accepts:{}:{}:{}", variant, format!("{:?}", kind).to_lowercase(), route),
+                    &format!("a certificate with a single non-conforming input ({}) was accepted via {}", variant, route),
+                    json!({"variant": variant, "route": route, "cert": hex(der_bytes), "now": now, "strict": strict, "case": detail}),
+                );
+            }
+        }
     }
     if kind == Kind::Ee {
         if let Some(iss) = issuer {
@@ -668,6 +714,19 @@ fn run_chain(ctx: &mut Ctx, w: &World, rng: &mut Rng, chain_no: u64) {
             }
             (None, _) => None,
         };
+        if want.is_some() && rng.chance(1, 4) {
+            for (route, accepted) in alt_routes(ctx, w, kind, &d, Some(&node.rc), strict, now) {
+                ctx.eval();
+                ctx.sig(&format!("route {} {:?}", route, kind));
+                if !accepted {
+                    ctx.violation(
+                        &format!("C01:rejects-conforming:{}:{}", format!("{:?}", kind).to_lowercase(), route),
+                        &format!("a correctly issued certificate is accepted by validate_*_at but rejected via {}", route),
+                        json!({"route": route, "cert": hex(&d), "case": detail}),
+                    );
+                }
+            }
+        }
         if kind == Kind::Ee {
             if let Some(eff) = &want {
                 ctx.eval();
